@@ -353,6 +353,7 @@ class Normalizer:
                         if r_pre[0] != 'env':
                             raise Unsupported('return in the head of a rotated loop')
                         st = rot[1]
+                    st = self._fold_leading_break(st)
                     st = self._counting_while(st, env) or st
                 if self._unroll(st, env):
                     continue
@@ -507,6 +508,28 @@ class Normalizer:
         ast.fix_missing_locations(new)
         return head, new
 
+    @staticmethod
+    def _fold_leading_break(st):
+        """N28: `while c: if x: break; B`  is  `while c and not x: B`  (the test x is evaluated exactly when c held; no other break /
+        continue in the body)."""
+        if st.orelse or len(st.body) < 2:
+            return st
+        first = st.body[0]
+        if not (isinstance(first, ast.If) and not first.orelse and len(first.body) == 1 and isinstance(first.body[0], ast.Break)):
+            return st
+        if any(isinstance(n, (ast.Break, ast.Continue)) for s_ in st.body[1:] for n in ast.walk(s_)):
+            return st
+        if isinstance(st.test, ast.Constant):
+            return st
+        import copy as _copy
+        cond = first.test
+        neg = cond.operand if (isinstance(cond, ast.UnaryOp) and isinstance(cond.op, ast.Not)) else ast.UnaryOp(op=ast.Not(), operand=cond)
+        new = ast.While(test=ast.BoolOp(op=ast.And(), values=[_copy.deepcopy(st.test), _copy.deepcopy(neg)]),
+                        body=[_copy.deepcopy(s_) for s_ in st.body[1:]], orelse=[])
+        ast.copy_location(new, st)
+        ast.fix_missing_locations(new)
+        return new
+
     def _counting_while(self, st, env):
         """N25: `while k < n: body; k += 1` with k a local bound before the loop, not otherwise assigned in the body, no break /
         continue and a bound the body does not re-bind, is `for k in range(<k before>, n): body` (the counter's value after the
@@ -576,6 +599,33 @@ class Normalizer:
     def _unroll(self, st, env):
         """N17: a `for` over range() with constant bounds and at most UNROLL_MAX iterations is its body repeated with the counter
         bound to each value (element-wise fills of a fixed-size block then normalise like the slice stores they spell out)."""
+        if isinstance(st, ast.For) and not st.orelse and isinstance(st.iter, (ast.Tuple, ast.List)) and 1 <= len(st.iter.elts) <= self.UNROLL_MAX \
+                and not any(isinstance(n, (ast.Break, ast.Continue, ast.Return)) for n in ast.walk(st)):
+            # a loop over a literal tuple of items: its body repeated with the target bound to each item (pairs bind element-wise)
+            items = []
+            for it_ in st.iter.elts:
+                if isinstance(st.target, ast.Name):
+                    items.append([(st.target.id, it_)])
+                elif isinstance(st.target, (ast.Tuple, ast.List)) and isinstance(it_, (ast.Tuple, ast.List)) and len(it_.elts) == len(st.target.elts) \
+                        and all(isinstance(x, ast.Name) for x in st.target.elts):
+                    items.append([(x.id, y) for x, y in zip(st.target.elts, it_.elts)])
+                else:
+                    return False
+            snapshot = dict(env)
+            try:
+                for binds in items:
+                    vals_ = [(n_, self.expr(e_, env)) for n_, e_ in binds]
+                    for n_, v_ in vals_:
+                        env[n_] = v_
+                    r = self.block(st.body, env)
+                    if r[0] != 'env':
+                        raise Unsupported('return inside loop')
+                    env = r[1]
+            except Unsupported:
+                env.clear()
+                env.update(snapshot)
+                return False
+            return True
         if not (isinstance(st, ast.For) and isinstance(st.target, ast.Name) and not st.orelse and isinstance(st.iter, ast.Call)
                 and isinstance(st.iter.func, ast.Name) and st.iter.func.id == 'range' and 1 <= len(st.iter.args) <= 3 and not st.iter.keywords):
             return False
@@ -778,7 +828,7 @@ class Normalizer:
             if isinstance(e.op, ast.UAdd):
                 return v
             if isinstance(e.op, ast.Not):
-                return ('not', v)
+                return self.not_(v)
             return ('un', type(e.op).__name__, v)
         if isinstance(e, ast.BinOp) and isinstance(e.op, ast.Mult) and isinstance(e.left, ast.List) and len(e.left.elts) == 1 \
                 and not isinstance(e.right, (ast.List, ast.Tuple)):
@@ -789,7 +839,7 @@ class Normalizer:
         if isinstance(e, ast.BinOp):
             return self.binop(BINOPS[type(e.op)], self.expr(e.left, env), self.expr(e.right, env))
         if isinstance(e, ast.BoolOp):
-            return ('and' if isinstance(e.op, ast.And) else 'or', tuple(self.expr(v, env) for v in e.values))
+            return self.boolop('and' if isinstance(e.op, ast.And) else 'or', tuple(self.expr(v, env) for v in e.values))
         if isinstance(e, ast.Compare):
             l = self.expr(e.left, env)
             parts = []
@@ -797,7 +847,7 @@ class Normalizer:
                 r = self.expr(c, env)
                 parts.append(self.none_test(canon_cmp(CMPOPS[type(op)], l, r)))
                 l = r
-            return parts[0] if len(parts) == 1 else ('and', tuple(parts))
+            return parts[0] if len(parts) == 1 else self.boolop('and', tuple(parts))
         if isinstance(e, ast.Tuple):
             return ('tuple', tuple(self.expr(x, env) for x in e.elts))
         if isinstance(e, ast.List):
@@ -880,6 +930,17 @@ class Normalizer:
             return a
         if a == ('k', True) and b == ('k', False) and c[0] in ('cmp', 'and', 'or', 'not'):
             return c
+        # N31: conditionals between truth values are connectives - `if c: return True; return x` is `c or x`
+        BOOLISH = ('cmp', 'and', 'or', 'not')
+        if c[0] in BOOLISH:
+            if a == ('k', True) and b[0] in BOOLISH:
+                return self.boolop('or', (c, b))
+            if b == ('k', False) and a[0] in BOOLISH:
+                return self.boolop('and', (c, a))
+            if a == ('k', False) and b[0] in BOOLISH:
+                return self.boolop('and', (self.not_(c), b))
+            if b == ('k', True) and a[0] in BOOLISH:
+                return self.boolop('or', (self.not_(c), a))
         return ('ite', c, a, b)
 
     def assume(self, t, c, truth):
@@ -976,6 +1037,9 @@ class Normalizer:
             return True
         if t[0] == 'neg':
             return self.is_int_term(t[1])
+        if t[0] == 'lv' and len(t) == 3:
+            init = self.loop_inits.get((t[1], t[2]))        # a loop-carried value that starts as an integer: a counter
+            return init is not None and init is not t and init[0] != 'lv' and self.is_int_term(init)
         if t[0] == 'num':
             return float(t[1]).is_integer()
         if t[0] == 'call' and t[1] in ('len', 'int'):
@@ -1447,6 +1511,44 @@ class Normalizer:
             return self.np_call(fn[1], args, kwargs)
         return ('call', fn, args, kwargs)
 
+    _NEG_CMP = {'<': '>=', '>=': '<', '>': '<=', '<=': '>', '==': '!=', '!=': '=='}
+
+    def not_(self, v):
+        """N32: negation pushed inwards - double negation, De Morgan, and comparisons between integer-valued terms (counters, lengths,
+        constants; no NaN there) negate to the complementary comparison"""
+        if not isinstance(v, tuple) or not v:
+            return ('not', v)
+        if v[0] == 'not':
+            return v[1]
+        if v[0] == 'k' and isinstance(v[1], bool):
+            return ('k', not v[1])
+        if v[0] in ('and', 'or') and len(v) == 2:
+            return self.boolop('or' if v[0] == 'and' else 'and', tuple(self.not_(x) for x in v[1]))
+        if v[0] == 'cmp' and len(v) == 4 and v[1] in self._NEG_CMP and (v[1] in ('==', '!=') or (self._counterish(v[2]) and self._counterish(v[3]))):
+            return canon_cmp(self._NEG_CMP[v[1]], v[2], v[3])
+        return ('not', v)
+
+    def _counterish(self, t):
+        return self.is_int_term(t) or (isinstance(t, tuple) and t and t[0] == 'p')      # a bound handed in as a parameter (max_iters)
+
+    @staticmethod
+    def boolop(kind, args):
+        """N30: conjunctions / disjunctions of values are kept flat, without repeated operands and in one canonical order (the terms are
+        values, effects are tracked apart: the order of the operands does not change the truth value)"""
+        flat = []
+        for a in args:
+            if isinstance(a, tuple) and a and a[0] == kind and len(a) == 2 and isinstance(a[1], tuple):
+                flat.extend(a[1])
+            else:
+                flat.append(a)
+        out = []
+        for a in flat:
+            if a not in out:
+                out.append(a)
+        if len(out) == 1:
+            return out[0]
+        return (kind, tuple(sorted(out, key=repr)))
+
     def int_add(self, t, k):
         """t + k for an integer-valued term (range bounds), in the canonical form of integer sums"""
         if is_num(t):
@@ -1491,6 +1593,8 @@ class Normalizer:
             return ('call', 'range', (args[1],), ())        # range(0, n) is range(n)
         if name == 'float' and len(args) == 1 and is_num(args[0]):
             return args[0]
+        if name == 'list' and len(args) == 1 and not kwargs and self.is_list_value(args[0]):
+            return args[0]                                   # list(<a list built here>): the same items in a new list
         if name == 'int' and len(args) == 1 and is_num(args[0]):
             return num(int(args[0][1]))
         return ('call', name, args, kwargs)
@@ -1506,6 +1610,11 @@ class Normalizer:
             return args[0]                                             # N2
         if name == 'numpy.transpose' and len(args) == 1:
             return self.transpose(args[0])                             # N3
+        if name == 'numpy.array_equal' and len(args) == 2 and not kwargs:
+            # N29: comparing with an all-zero array of the same shape asks whether no entry is non-zero
+            for a_, z_ in ((args[0], args[1]), (args[1], args[0])):
+                if z_[0] == 'call' and z_[1] in ('numpy.zeros', 'numpy.zeros_like'):
+                    return self.not_(('call', ('meth', 'any'), (a_,), ()))
         if name in ('numpy.dot', 'numpy.matmul') and len(args) == 2:
             return self.dot(args[0], args[1])                          # N4
         if name == 'numpy.arccos' and len(args) == 1:
